@@ -351,7 +351,7 @@ for _mod, _cls, _kind, _attrs in (('binner', 'Binner', 'base', {}),
                                   ('nativebinner', 'NativeBinner', 'native', {})):
     Unit('C16', BN + '%s:%s.generate_spectrum_output' % (_mod, _cls), _so_params(_cls, **_attrs), pre=_so_pre(_kind), post=_so_post(_kind),
          cases=_OS_CASES, bounds=[dict(N=2, B=1, n=1)], abstract={'call:bindown': _h_bindown}, native_obj=_so_native('taurex.binning.' + _mod, _cls, _kind)[0],
-         native_call=_so_native('taurex.binning.' + _mod, _cls, _kind)[1],
+         native_call=_so_native('taurex.binning.' + _mod, _cls, _kind)[1], history_fixed=('B', 'g', 'w'),
          gen=_so_gen(_kind), inline=['generate_spectrum_output'], short='%s.generate_spectrum_output' % _cls, safety=('index',),
          doc='stored spectra describe themselves consistently (%s binner); bindown abstract (C05), compute_bin_edges / '
              'wnwidth_to_wlwidth by contract' % _kind)
